@@ -8,11 +8,18 @@
    Executable only. *)
 From JV Require Import Lib.Base Model.TyVal Model.Scalar Model.Ty.
 
-Inductive member := MTy (t : ty) | MOpq (name : str).
+(* MOpq: a registered / restricted type; MTd: a TypedDict class (total) with its fields. The behaviour of both on a value is
+   OBSERVED (table); for MTd the declared fields serve the SPEC only (what a conforming result looks like). *)
+Inductive member := MTy (t : ty) | MOpq (name : str) | MTd (name : str) (fields : list (str * ty)).
 
 (* the hint that decides the sort key / the str fallback of a member: an opaque member is neither None, str, nor a
    sequence/mapping *)
-Definition member_key (m : member) : ty := match m with MTy t => t | MOpq n => TEnum n [] end.
+Definition member_key (m : member) : ty :=
+  match m with
+  | MTy t => t
+  | MOpq n => TEnum n []
+  | MTd _ _ => TDict false TAny        (* get_typehint_origin(TypedDict class) is dict: a mapping for the Union sort *)
+  end.
 
 Definition opq_table := list (str * val * ares).
 
@@ -31,14 +38,14 @@ Variable dflt : option val.
 Definition member_result (orig : option str) (v : val) (m : member) : ty * ares :=
   (member_key m, match m with
                  | MTy t => adapt_g fx yl false orig t v
-                 | MOpq n => match opq_lookup tbl n v with AOk w => AOk w | AErr _ => AErr ErrValue end
+                 | MOpq n | MTd n _ => match opq_lookup tbl n v with AOk w => AOk w | AErr _ => AErr ErrValue end
                  end).
 
 (* the hint is the member itself when there is one, Union[members] otherwise *)
 Definition adapt_ms (orig : option str) (ms : list member) (v : val) : ares :=
   match ms with
   | [MTy t] => adapt_g fx yl false orig t v
-  | [MOpq n] => opq_lookup tbl n v        (* not a Union: the kind of the exception decides about the retry *)
+  | [MOpq n] | [MTd n _] => opq_lookup tbl n v   (* not a Union: the kind of the exception decides about the retry *)
   | _ => adapt_union fx orig v (map (member_result orig v) ms)
   end.
 
